@@ -114,10 +114,30 @@ def dawson(prog, ctx):
     xname = fn.params[0]['name']
     # branch test
     ifs = [s for s in fn.body['body'] if s['k'] == 'If']
-    if len(ifs) != 1:
-        ctx.undecided('C17.c', 'Dawson:branches', fn, 'expected one two-way branch')
+    if not ifs or (len(ifs) > 1 and any(i_.get('else') is not None for i_ in ifs)):
+        ctx.undecided('C17.c', 'Dawson:branches', fn, 'expected one branch chain')
         return
     br = ifs[0]
+    flat_extra = ifs[1:]        # canonical IR: `if(a) {..return} if(b) {..return} rest` for an else-if chain whose branches all return
+    # further `else if` branches between the small-argument series and the final (Rybicki) branch
+    extra = []
+    tail = br.get('else')
+    while tail is not None:
+        t_ = tail
+        if t_.get('k') == 'Compound' and len(t_.get('body', [])) == 1:
+            t_ = t_['body'][0]
+        if t_.get('k') != 'If':
+            break
+        extra.append(t_)
+        tail = t_.get('else')
+    if flat_extra:
+        top = fn.body['body']
+        pos = [top.index(i_) for i_ in ifs]
+        if pos != list(range(pos[0], pos[0] + len(pos))):
+            ctx.undecided('C17.c', 'Dawson:branches', fn, 'branches are separated by other statements')
+            return
+        extra = list(flat_extra)
+        tail = {'k': 'Compound', 'body': top[pos[-1] + 1:]}
     sx = Symx(prog, fn)
     st = State({})
     for s in fn.body['body']:
@@ -134,6 +154,11 @@ def dawson(prog, ctx):
     srets = [o for o in done if o.kind == 'return']
     small = srets[0].value if len(srets) == 1 and not live else None
     large_body = br['else'] if br.get('else') is not None else {'k': 'Compound', 'body': fn.body['body'][fn.body['body'].index(br) + 1:]}
+    extra_odd = True
+    if extra:
+        large_body = tail if tail is not None else {'k': 'Compound', 'body': fn.body['body'][fn.body['body'].index(br) + 1:]}
+        for eb in extra:
+            extra_odd = asymptotic_branch(ctx, fn, sx, st, x, eb) and extra_odd
     okodd = small is not None and is_zero(small + small.subs(x, -x))
     series = x - 2 * x ** 3 / 3 + 4 * x ** 5 / 15 - 8 * x ** 7 / 105
     okser = small is not None and is_zero(small - series)
@@ -169,7 +194,7 @@ def dawson(prog, ctx):
                     parents[id(n)] = n
     nref = len(parents)
     oklarge = nref == len(uses) and sorted(uses) == [('Sign', 1), ('fabs', 0)] or sorted(uses) == [('Sign', 1), ('abs', 0)]
-    ctx.decide('C17.c', 'Dawson:odd', fn, bool(even and okodd and oklarge),
+    ctx.decide('C17.c', 'Dawson:odd', fn, bool(even and okodd and oklarge and extra_odd),
                'branch test even in x, small branch odd, large branch uses x only via |x| and Sign(.,x)',
                'oddness by construction fails: test even=%s, small branch odd=%s, uses of x in the large branch=%s' % (even, okodd, uses))
     rybicki(prog, ctx, fn, large_body, sx, st, x)
@@ -185,6 +210,66 @@ def dawson(prog, ctx):
         okr = sp.simplify(v + v.subs(N, -N)) == 0
     ctx.decide('C17.c', 'Round:odd', rd, okr, 'Round(0)=0 and Round(-N) = -Round(N) by construction (sign(N)*g(|N|))',
                'Round is not odd by construction: %s' % [str(o.value)[:200] for o in main])
+
+
+def asymptotic_branch(ctx, fn, sx, st, x, eb):
+    """An added large-argument branch of Dawson_Integral: it must be a partial sum of the asymptotic series
+    F(x) ~ sum_k (2k-1)!!/(2^(k+1) x^(2k+1)) used only where the first omitted term is below the accuracy of the property.
+    Returns whether the branch keeps the function odd."""
+    R = 'C17.e'
+    inst = 'Dawson:asymptotic-branch'
+    cond = sx.as_bool(sx.sym(eb['cond'], st))
+    stb = st.fork()
+    live, done = sx.exec(eb['then'], [stb])
+    rets = [o for o in done if o.kind == 'return']
+    if live or len(rets) != 1 or not isinstance(rets[0].value, sp.Basic):
+        ctx.undecided(R, inst, fn, 'an additional branch whose value is not one closed form')
+        return True
+    val = rets[0].value
+    odd = bool(is_zero(val + val.subs(x, -x))) and cond.subs(x, -x) == cond
+    thr = None
+    if isinstance(cond, (sp.Gt, sp.Ge)) and cond.lhs == sp.Abs(x) and cond.rhs.is_number:
+        thr = float(cond.rhs)
+    elif isinstance(cond, (sp.Lt, sp.Le)) and cond.rhs == sp.Abs(x) and cond.lhs.is_number:
+        thr = float(cond.lhs)
+    if thr is None or thr <= 0:
+        ctx.undecided(R, inst, fn, 'an additional branch whose test is not |x| > constant: %s' % cond)
+        return odd
+    w = sp.Symbol('w', positive=True)
+    try:
+        pw = sp.Poly(sp.expand(sp.nsimplify(sp.simplify(val.subs(x, 1 / w)), rational=True)), w)
+    except Exception:
+        ctx.undecided(R, inst, fn, 'an additional branch for |x| > %g whose value is not a polynomial in 1/x: %s' % (thr, val))
+        return odd
+    def a(k):
+        return sp.factorial2(2 * k - 1) / sp.Integer(2) ** (k + 1)
+    deg = pw.degree()
+    K = (deg - 1) // 2
+    want = sum(a(k) * w ** (2 * k + 1) for k in range(K + 1))
+    partial = deg % 2 == 1 and sp.expand(pw.as_expr() - want) == 0
+    tol_abs, tol_rel = 2e-7, 1e-6
+    if partial:
+        omitted = float(a(K + 1)) / thr ** (2 * K + 3)
+        rel = omitted * 2 * thr
+        if omitted > tol_abs or rel > tol_rel:
+            ctx.decide(R, inst, fn, False, '',
+                       'for |x| > %g the function returns the asymptotic series truncated after the x^-%d term; all later terms are positive and the first omitted one, '
+                       '%s/x^%d, is %.3g at the switch point: above the 2e-7 absolute accuracy of Dawson_Integral (relative %.3g against 1e-6 for Erfi)'
+                       % (thr, 2 * K + 1, a(K + 1), 2 * K + 3, omitted, rel), witness={'x': thr * (1 + 1e-4), 'first_omitted_term': omitted}, form=str(val))
+        else:
+            ctx.undecided(R, inst, fn, 'an asymptotic branch for |x| > %g (first omitted term %.3g): its remainder is not bounded by this analysis' % (thr, omitted))
+    else:
+        # not a partial sum of the asymptotic series: size of the discrepancy at the switch point against the series truncated at its smallest term
+        kbest = max(K + 1, int(thr * thr))
+        ref = sum(float(a(k)) / thr ** (2 * k + 1) for k in range(min(kbest, 60) + 1))
+        dev = abs(float(pw.as_expr().subs(w, 1 / sp.Float(thr))) - ref)
+        if dev > 4 * tol_abs:
+            ctx.decide(R, inst, fn, False, '',
+                       'for |x| > %g the function returns %s, which is not a partial sum of the asymptotic series 1/(2x)+1/(4x^3)+3/(8x^5)+...: at the switch point it '
+                       'differs from the series by %.3g (> 2e-7)' % (thr, val, dev), witness={'x': thr * (1 + 1e-4), 'deviation': dev}, form=str(val))
+        else:
+            ctx.undecided(R, inst, fn, 'an additional branch for |x| > %g that is not a partial sum of the asymptotic series (deviation %.3g at the switch point)' % (thr, dev))
+    return odd
 
 
 def rybicki(prog, ctx, fn, large_body, sx, st, x):
